@@ -18,7 +18,7 @@ type propC02 struct{}
 func init() {
 	Register(propC02{})
 	meta["C02"] = propMeta{
-		Rule: "A case is one world: generated program + configuration + cost map (none, per-name, variable/operator defaults, negative, zero, 1e308, +-Inf, NaN), compiled under all 16 optimisation subsets by both routes (32 programs), evaluated under 1-4 plans (bindings of all variables; identity-keyed operator and fetch failures). Clauses checked: A any two variants that both return a value agree; B when strict evaluation of everything succeeds all variants return the unoptimised value; C with Reordering off every variant returns the unoptimised value whenever the real unoptimised run returns one (only in plans without fetch failures); routes: options and directive give the same Dump and the same outcome. evaluations = calls into the library. non-trivial = distinct worlds with and/or/if, at least two seam calls in the unoptimised run, and at least one variant whose Dump differs from the unoptimised Dump.",
+		Rule: "A case is one world: generated program + configuration + cost map (none, per-name, variable/operator defaults, negative, zero, 1e308, +-Inf, NaN), compiled under all 16 optimisation subsets by both routes (32 programs), evaluated under 1-4 plans (bindings of all variables; identity-keyed operator and fetch failures). Clauses checked: A any two variants that both return a value agree; B when evaluating every reachable operand succeeds (every and/or operand in whatever order, of an `if` the condition and the branch taken) all variants return the unoptimised value; C with Reordering off every variant returns the unoptimised value whenever the real unoptimised run returns one (only in plans without fetch failures); routes: options and directive give the same Dump and the same outcome. evaluations = calls into the library. non-trivial = distinct worlds with and/or/if, at least two seam calls in the unoptimised run, and at least one variant whose Dump differs from the unoptimised Dump.",
 		Assumptions: []string{
 			"baseline is the real unoptimised engine (mask 0), so C02 does not inherit errors of the reference model; the strict reference interpreter only gates clause B",
 			"an injected failure of a leaf fetch is not a violation of clause C (FastEvaluation may fetch both leaves of a two-leaf and/or, which C03 permits), so clause C is checked only in plans without fetch failures",
@@ -231,14 +231,14 @@ func (propC02) Run(w *World, st *Stats) *Violation {
 		}
 		// clause B: nothing can fail => every variant returns the unoptimised value
 		senv := NewEnv(ops, p)
-		sit := &Interp{Consts: w.Cfg.ConstVals(), Env: senv}
+		sit := &Interp{Consts: w.Cfg.ConstVals(), Env: senv, IfLazy: true}
 		_, serr := sit.Strict(w.Prog)
 		if serr == nil {
 			st.Probe("clauseB_worlds_nothing_can_fail")
 			for i := range outs {
 				if outs[i].Err != nil {
 					return viol(narrowed(withMasks(vars[i].mask), p), "clauseB-error",
-						"no operand of the program can fail under this plan, yet %s returns error %v\ndump: %s", vars[i], outs[i].Err, oneLine(vars[i].dump))
+						"no reachable operand of the program can fail under this plan, yet %s returns error %v\ndump: %s", vars[i], outs[i].Err, oneLine(vars[i].dump))
 				}
 				if base.Err == nil && !ValEq(outs[i].Val, base.Val) {
 					return viol(narrowed(withMasks(vars[i].mask), p), "clauseB-value",
